@@ -196,6 +196,9 @@ func (sm *structMapper) visitField(loc fieldLoc, f reflect.StructField, p fieldP
 		case oldloc.i == -3 && p.tagged && loc.depth() == len(oldloc.path):
 			// A tagged field wins over untagged fields.
 			sm.sp.fields[fi] = loc
+		case oldloc.i == -3:
+			// Prior collision of untagged fields at this depth or above:
+			// this field is ignored as well.
 		case oldloc.isValid() && oldloc.depth() < loc.depth():
 			// This is deeper, don't override.
 		case oldloc.isValid() && oldloc.depth() == loc.depth():
